@@ -1,0 +1,70 @@
+/*
+ * Verification hooks.  This module only exists when the crate is built with
+ * the "verif-hooks" feature, which is off by default and is never enabled by
+ * the shipped crate or its test suite.
+ *
+ * The only hook is a seam over the one source of hidden nondeterminism in
+ * the library: the per-instance random hash keys of the HashMap that stores
+ * the variables of a pkg_summary entry.  With the feature enabled the map
+ * uses SimBuildHasher, whose keys are taken from a thread-local value that a
+ * deterministic simulator sets before creating a Summary, so that the
+ * internal iteration order becomes a replayable function of one integer.
+ */
+
+//! Hooks for deterministic simulation (feature `verif-hooks` only).
+
+use std::cell::Cell;
+use std::collections::hash_map::DefaultHasher;
+use std::hash::{BuildHasher, Hasher};
+
+thread_local! {
+    static HASH_SEED: Cell<u64> = const { Cell::new(0) };
+}
+
+/**
+ * Set the hash seed captured by every [`SimBuildHasher`] subsequently
+ * created on this thread (i.e. by every new `Summary`).
+ */
+pub fn set_hash_seed(seed: u64) {
+    HASH_SEED.with(|s| s.set(seed));
+}
+
+/**
+ * Return the hash seed currently installed for this thread.
+ */
+pub fn hash_seed() -> u64 {
+    HASH_SEED.with(|s| s.get())
+}
+
+/**
+ * A [`BuildHasher`] with explicit, replayable keys.
+ */
+#[derive(Clone, Debug)]
+pub struct SimBuildHasher {
+    seed: u64,
+}
+
+impl SimBuildHasher {
+    /**
+     * The seed captured when this hasher was created.
+     */
+    pub fn seed(&self) -> u64 {
+        self.seed
+    }
+}
+
+impl Default for SimBuildHasher {
+    fn default() -> Self {
+        SimBuildHasher { seed: hash_seed() }
+    }
+}
+
+impl BuildHasher for SimBuildHasher {
+    type Hasher = DefaultHasher;
+
+    fn build_hasher(&self) -> DefaultHasher {
+        let mut h = DefaultHasher::new();
+        h.write_u64(self.seed);
+        h
+    }
+}
